@@ -3,6 +3,7 @@ package main
 // Evaluation of specification expressions into SMT terms over a pair of states (old, cur).
 
 import (
+	"os"
 	"fmt"
 	"go/constant"
 	"go/token"
@@ -637,6 +638,9 @@ func (se *SpecEnv) callExpr(x *SCall) (Value, types.Type) {
 				// ... and the slice header is well-formed (0 <= len <= cap, a nil slice is empty): what the engine
 				// assumes of every slice value loaded by the code
 				p := vc.SlicePtr(v)
+				if os.Getenv("GOVC_NOSHAPE") != "" {
+					return Or(Eq(p, IntLit(0)), Select(se.ex.alive(se.cur), p)), boolT
+				}
 				return And(Or(Eq(p, IntLit(0)), Select(se.ex.alive(se.cur), p)), se.ex.sliceShape(v)), boolT
 			}
 			return Select(se.ex.alive(se.cur), v), boolT
